@@ -458,9 +458,11 @@ C18_Clauses(cfg, S) ==
                       /\ Len(BlocksOf(j)) = 1 /\ BlocksOf(j)[1].posts # <<>>) =>
                      RetOf(S[j]).act = Norm(BlocksOf(j)[1].posts[1].act),
    \* as a routed step: a connection on the default action is followed after an empty action
+   \* (every run in which some node reports the empty or the default action: in flows that is where a default
+   \* connection - of a leaf or of a nested flow - has to be followed)
    routed    |-> \A j \in 1..Len(S) :
                    (NodeOf(cfg, S[j].call.node).kind = "flow" /\ ~Cancelled(S[j])
-                      /\ \E i \in 1..Len(S[j].cbs) : S[j].cbs[i].ev = "post" /\ S[j].cbs[i].out = "ok" /\ S[j].cbs[i].act = NIL)
+                      /\ \E i \in 1..Len(S[j].cbs) : S[j].cbs[i].ev = "post" /\ S[j].cbs[i].out = "ok" /\ S[j].cbs[i].act \in {NIL, DefaultAct})
                    => PathHolds(cfg, S[j])
   ]
 C18_OK(cfg, h) == All(C18_Clauses(cfg, Segs(h)))
